@@ -207,6 +207,14 @@ func (p *Program) Orig(fn *ssa.Function) *ssa.Function {
 	return fn
 }
 
+// InlinedCallees: the helpers expanded into a view (nil for ordinary functions).
+func (p *Program) InlinedCallees(fn *ssa.Function) map[*ssa.Function]int {
+	if vi, ok := p.views[fn]; ok {
+		return vi.res.Inlined
+	}
+	return nil
+}
+
 // IsView reports whether fn is an inlined copy.
 func (p *Program) IsView(fn *ssa.Function) bool {
 	_, ok := p.views[fn]
